@@ -45,6 +45,13 @@ claim("C09", "other",
       "DESIGN.md §3 C09, §2.4 G6")
 
 
+claim("C16", "other",
+      "HIR structural rules on FeelType::is_equivalent/is_conformant/coerced: match diagonal, provenance (side and component) of recursive calls = variance, loop-invariant-return detection, dominance of conformance tests over coerced's returns",
+      "Static rule checking of the three functions that implement the relation: every FeelType variant has its own arm testing self for the same variant, every recursive call relates corresponding components with the variance the specification prescribes (contravariant only in function parameters), no decision inside an element loop is independent of the element (the nullary-function hole), and every non-null result of coerced is dominated by `type_of(value) conforms to target` (plus len()==1 for the unwrap). These are the structural premises of the usual inductive preorder argument; the induction itself (transitivity over the infinite type universe) is stated, not mechanised.",
+      "Trusts rustc's HIR/type resolution and engine/hirflow.py's provenance tracking. Not decided: transitivity as a semantic law, Value::type_of.",
+      "DESIGN.md §3 C16")
+
+
 def main():
     checks = []
     for pid in sorted(CLAIMED):
